@@ -17,13 +17,13 @@ class Variant:
         self.mod = importlib.import_module(f"{DEP}.{modname}")
         self.cls = getattr(self.mod, clsname)
 
-    def make(self, transport, **kw):
+    def make(self, transport, client_headers=None, **kw):
         import httpx
 
         if self.is_async:
-            http = httpx.AsyncClient(transport=transport)
+            http = httpx.AsyncClient(transport=transport, headers=client_headers)
         else:
-            http = httpx.Client(transport=transport)
+            http = httpx.Client(transport=transport, headers=client_headers)
         if self.tracer:
             kw["tracer"] = _tracer()
         return self.cls(url=URL, http_client=http, **kw)
@@ -90,3 +90,62 @@ def canon(v):
     if isinstance(v, dict):
         return ("obj", [(k, canon(x)) for k, x in v.items()])
     return ("other", type(v).__name__, repr(v))
+
+
+# ---- module-level state of the bundled client modules (globals, class attributes, function defaults) ----
+STATE_MODULES = ["base_client", "async_base_client", "base_client_open_telemetry",
+                 "async_base_client_open_telemetry", "base_model", "exceptions"]
+
+
+def _freeze(v, depth=0):
+    if v is None or isinstance(v, (bool, int, float, str, bytes)):
+        return repr(v)
+    if depth > 5:
+        return ("deep", type(v).__name__)
+    if isinstance(v, dict):
+        return ("dict", id(v), tuple((repr(k), _freeze(x, depth + 1)) for k, x in v.items()))
+    if isinstance(v, (list, tuple)):
+        return (type(v).__name__, id(v), tuple(_freeze(x, depth + 1) for x in v))
+    if isinstance(v, (set, frozenset)):
+        return (type(v).__name__, id(v), tuple(sorted(repr(x) for x in v)))
+    return ("obj", type(v).__name__, id(v))
+
+
+def _freeze_function(f):
+    return ("func", id(f), _freeze(getattr(f, "__defaults__", None)), _freeze(getattr(f, "__kwdefaults__", None)))
+
+
+def module_state():
+    """A comparable snapshot of everything a call could leave behind at module level."""
+    import types
+
+    snap = {}
+    for name in STATE_MODULES:
+        m = dep_module(name)
+        for g, v in vars(m).items():
+            if g.startswith("__"):
+                continue
+            key = f"{name}.{g}"
+            if isinstance(v, type) and getattr(v, "__module__", None) == m.__name__:
+                for a, x in vars(v).items():
+                    if a in ("__dict__", "__weakref__", "__doc__", "__module__", "__qualname__", "__annotations__",
+                             "__abstractmethods__", "_abc_impl", "__pydantic_parent_namespace__"):
+                        continue
+                    f = getattr(x, "__func__", x)
+                    if isinstance(f, types.FunctionType):
+                        snap[f"{key}.{a}"] = _freeze_function(f)
+                    elif a.startswith("__"):
+                        continue  # interpreter / pydantic bookkeeping (lazy caches)
+                    elif isinstance(x, (dict, list, set)):
+                        snap[f"{key}.{a}"] = _freeze(x)
+            elif isinstance(v, types.FunctionType):
+                snap[key] = _freeze_function(v)
+            elif isinstance(v, types.ModuleType):
+                snap[key] = ("module", v.__name__)
+            else:
+                snap[key] = _freeze(v)
+    return snap
+
+
+def state_diff(a, b):
+    return sorted(k for k in set(a) | set(b) if a.get(k) != b.get(k))
